@@ -172,6 +172,10 @@ let dispatch fn a =
     string_of_bool' (s_iso_ok s && s_published_ok (x_iban_cc s) (x_iban_bban s))
   | "spec_only_rejects" -> "OK"
   | "spec_published" -> string_of_bool' (s_published_ok (t 0) (t 1))
+  | "algo_validate" -> out string_of_bool' (x_algo_validate (t 0) (texts_of_string a.(1)) (t 2))
+  | "algo_compute" -> out string_of_text (x_algo_compute (t 0) (texts_of_string a.(1)))
+  | "spec_german" ->
+    (match s_bb (t 0) (t 1) with Some true -> "1" | Some false -> "0" | None -> "NOSPEC")
   | "spec_iso_ok" -> string_of_bool' (s_iso_ok (t 0))
   | "spec_check_digits" -> string_of_text (s_check_digits (t 0) (t 1))
   | "spec_conforms" -> string_of_bool' (s_conforms (t 0) (t 1))
